@@ -333,12 +333,14 @@ def cfg_io(case, res):
         plan, rec = plans[tok]
         if kind == 'B':
             sub = ev[2]
-            path = plan['path'] if sub == 0 else (plan.get('redirect_to') or '/')
-            if plan.get('kind') == 'mwfail' or sub > 1:
+            snap = next((s for s in rec['snaps'] if s.get('sub', 0) == sub and s['stage'] == 'start:in'), None)
+            # the path of a sub-request is the one the running request reports (redirect chains, fault redirects)
+            seen_pi = snap['contents']['reqScalars'].get('path_info') if snap is not None else None
+            path = plan['path'] if sub == 0 else seen_pi
+            if plan.get('kind') == 'mwfail' or not isinstance(path, str):
                 last = None
                 continue
             toks.append('Q:%d:%s' % (plan['app'], register(plan['app'], path)))
-            snap = next((s for s in rec['snaps'] if s.get('sub', 0) == sub and s['stage'] == 'start:in'), None)
             if snap is None or not isinstance(snap['contents'].get('config'), dict):
                 expected.append(None)
             else:
